@@ -402,6 +402,24 @@ func (eng *Engine) bodyEffects(fn *ssa.Function) map[string]bool {
 	return out
 }
 
+// smtSingle renders a query file for one obligation only (no push/pop: the solvers' non-incremental strategies apply).
+func (vc *VC) smtSingle(i int) string {
+	vc.emitLemmaAxioms()
+	var sb strings.Builder
+	for _, l := range vc.out {
+		sb.WriteString(l)
+		sb.WriteString("\n")
+	}
+	o := vc.obls[i]
+	if o.Cover {
+		sb.WriteString(fmt.Sprintf("(assert %s)\n", o.Guard))
+	} else {
+		sb.WriteString(fmt.Sprintf("(assert (and %s (not %s)))\n", o.Guard, o.Cond))
+	}
+	sb.WriteString("(check-sat)\n")
+	return sb.String()
+}
+
 // smtText renders the whole query file: definitions, then one push/check/pop per obligation.
 func (vc *VC) smtText(only map[int]bool) string {
 	vc.emitLemmaAxioms()
